@@ -59,6 +59,26 @@ func (e *Engine) modelValues(o *Obligation, terms []string, workdir string, budg
 		return nil
 	}
 	q := e.buildQuery(o, false)
+	// a parameter the goal does not depend on is not even declared in the
+	// query: it keeps its zero value in the replay
+	var asked []string
+	for _, t := range terms {
+		sym := t
+		if i := strings.LastIndex(t, " p_"); i >= 0 {
+			sym = strings.TrimRight(t[i+1:], ")")
+			if j := strings.IndexAny(sym, " )"); j >= 0 {
+				sym = sym[:j]
+			}
+		}
+		sym = strings.TrimSuffix(sym, "_base")
+		if strings.Contains(q, "(declare-const "+sym+" ") || strings.Contains(q, "(declare-fun "+sym+" ") || strings.Contains(q, "(declare-const "+sym+"_base ") {
+			asked = append(asked, t)
+		}
+	}
+	terms = asked
+	if len(terms) == 0 {
+		return map[string]string{}
+	}
 	q += "(get-value (" + strings.Join(terms, " ") + "))\n"
 	file := filepath.Join(workdir, "model-"+sanitize(o.Name)+".smt2")
 	os.WriteFile(file, []byte(q), 0o644)
@@ -161,6 +181,15 @@ func (e *Engine) goLiteral(p paramInfo, vals map[string]string) (string, bool) {
 	case *types.Basic:
 		v, ok := vals[p.Term]
 		if !ok {
+			// not constrained by the failed goal: any value will do
+			switch {
+			case u.Info()&types.IsString != 0:
+				return `""`, true
+			case u.Info()&types.IsBoolean != 0:
+				return "false", true
+			case u.Info()&types.IsInteger != 0:
+				return fmt.Sprintf("%s(0)", types.TypeString(p.T, func(*types.Package) string { return "" })), true
+			}
 			return "", false
 		}
 		switch {
@@ -182,7 +211,11 @@ func (e *Engine) goLiteral(p paramInfo, vals map[string]string) (string, bool) {
 	case *types.Slice:
 		if b, ok := under(u.Elem()).(*types.Basic); ok && b.Info()&types.IsString != 0 {
 			srt := e.sortOf(p.T)
-			ln, ok := smtIntToGo(vals[fmt.Sprintf("(len_%s %s)", srt, p.Term)])
+			lv, have := vals[fmt.Sprintf("(len_%s %s)", srt, p.Term)]
+			if !have {
+				return "[]string{}", true
+			}
+			ln, ok := smtIntToGo(lv)
 			if !ok || ln < 0 || ln > 8 {
 				return "", false
 			}
@@ -243,9 +276,8 @@ func replayable(c *FuncCtx) bool {
 
 // replay writes the replay file for a failed obligation and tries to confirm
 // the failure on the real code.
-func (e *Engine) replay(o *Obligation, prop, dir, repo string) (string, bool) {
+func (e *Engine) replay(o *Obligation, prop, dir, repo string) (path string, confirmed bool) {
 	n := 1
-	var path string
 	for {
 		path = filepath.Join(dir, fmt.Sprintf("%s-%d.json", sanitize(o.Name), n))
 		if _, err := os.Stat(path); err != nil {
@@ -255,9 +287,8 @@ func (e *Engine) replay(o *Obligation, prop, dir, repo string) (string, bool) {
 	}
 	rf := &replayFile{Property: prop, Obligation: o.Name, Kind: o.Kind, Function: o.Fn, Pos: o.Pos, Clause: o.Text,
 		Status: o.Status, Solver: o.Solver, Outputs: o.Outputs}
-	confirmed := false
 	defer func() {
-		if !confirmed && o.ctx != nil && (o.Kind == "post" || o.Kind == "step" || o.Kind == "init" || o.Kind == "assert" || o.Kind == "exit") {
+		if !confirmed && o.ctx != nil {
 			// no replayable model: look for a failing input among a fixed pool
 			// of small ones (bounded; see search.go)
 			if h := e.boundedSearch(o.ctx, prop, repo); h != nil {
